@@ -2,6 +2,7 @@ SPECIFICATION Spec
 CONSTANTS
   KeyOrder <- KO2
   Ctxs <- OneCtx
+  Flows <- SingleFlows
   Calls <- MakeCalls
 INVARIANT Emit
 CHECK_DEADLOCK FALSE
